@@ -13,7 +13,8 @@ open Nsq.Model.LookupSync Nsq.Proofs.LookupSync Nsq.Proofs.LookupMore Nsq.Proofs
 /-! ## C7 — a lookupd that answers a command with a framed `E_…` error -/
 
 /-- the convergence clause when a `Command` may also be *refused* (`Outcome3.rejected`: every round trip worked, the
-reply was `E_…`), for the tree with (`true`) / without (`false`) fixes/F36_lookup_peer_closes_on_error_reply.patch -/
+reply was `E_…`), for the tree with (`true`; /repo abf2660, committed) / without (`false`) F36 — which one the checked
+tree is, is computed from the regenerated facts: `Tie.LookupSync.treeF36` -/
 def C16_converges_rejections (f36 : Bool) : Prop :=
   ∀ (steps : List StepR) (s : State), runR f36 State.init steps = some s → Quiescent s → InSync s
 
@@ -25,6 +26,11 @@ theorem converges_with_rejections : C16_converges_rejections true := by
   rw [runR_fixed] at hr
   exact converges _ s (by rw [runG_fixed]; exact hr) hq
 
+/-- THIS tree (audit B12): `Tie.LookupSync.command_shape` accepts only the shape with F36 and the facts decide
+`treeF36 = true`; a tree that reverts F36 fails `tree_f36` and this theorem with it. -/
+theorem converges_with_rejections_this_tree : C16_converges_rejections Nsq.Tie.LookupSync.treeF36 := by
+  rw [Nsq.Tie.LookupSync.tree_f36]; exact converges_with_rejections
+
 /-- with F36 a refusal on an established connection closes it (it is a *fault* in the sense of `C16Ticks`: the
 tick-count theorems count from the last one) -/
 theorem rejected_closes (objs dead : List Ref) (apply : List Key → List Key) (p : Peer) :
@@ -34,9 +40,9 @@ theorem rejected_closes (objs dead : List Ref) (apply : List Key → List Key) (
 /-- the witness: the lookupd (connected, healthy before and after) refuses the one REGISTER of topic `t` -/
 def rejectedRegister : List StepR := [.addPeer 0 .ok, .base (.createTopic "t"), .notify t0 [.rejected]]
 
-/-- Without F36 the clause is false: the REGISTER is refused, `lp.state` stays connected, every later PING succeeds,
+/-- Without F36 (the tree before abf2660) the clause is false: the REGISTER is refused, `lp.state` stays connected, every later PING succeeds,
 nothing ever repeats the REGISTER — nsqd is quiescent, the lookupd is connected and does not list `t`
-(replayed on the real code: corpus/C16/known/register_rejected.ops). -/
+(replayed on the real code: corpus/C16/fixed/register_rejected.ops). -/
 theorem converges_false_without_F36 : ¬ C16_converges_rejections false := by
   intro h
   have hc : endsWith (runR false State.init rejectedRegister) [("t", "")] [] = true := by decide
@@ -45,6 +51,9 @@ theorem converges_false_without_F36 : ¬ C16_converges_rejections false := by
 
 -- with F36 the same schedule leaves the peer disconnected, and the next heartbeat reconnects and registers `t`
 example : endsWith (runR true State.init (rejectedRegister ++ [.tick [.ok]])) [("t", "")] [("t", "")] = true := by decide
+-- … and that is what THIS tree does (parameter computed from the facts)
+example : endsWith (runR Nsq.Tie.LookupSync.treeF36 State.init (rejectedRegister ++ [.tick [.ok]])) [("t", "")] [("t", "")] = true := by
+  rw [Nsq.Tie.LookupSync.tree_f36]; decide
 -- any number of further good heartbeats do not help the tree without F36
 example : endsWith (runR false State.init (rejectedRegister ++ [.tick [.ok], .tick [.ok], .tick [.ok]]))
     [("t", "")] [] = true := by decide
@@ -175,7 +184,7 @@ theorem precreate_all_failed (ls : List Lookupd) (h : ∀ l ∈ ls, l.answer = n
   · rw [h'] at ha; simp at ha
   · rw [h'] at hid; simp at hid
 
-/-- No command injection (audit C8), tree with F35: a pre-created channel name contains neither a newline nor a
+/-- No command injection (audit C8), tree with F35 (/repo d2805fe, committed): a pre-created channel name contains neither a newline nor a
 blank, whatever the lookupds answered … -/
 theorem precreate_names_have_no_separator (ls : List Lookupd) (c : String) (h : c ∈ precreate ls) :
     '\n' ∉ c.toList ∧ ' ' ∉ c.toList :=
@@ -201,7 +210,16 @@ def C16_no_injection (f35 : Bool) : Prop :=
 theorem no_injection : C16_no_injection true :=
   fun ls c h => (precreate_names_have_no_separator ls c h).1
 
-/-- Without F35 it is false: one lookupd answering `/channels` with the name `x⏎UNREGISTER other` makes nsqd create
+/-- THIS tree (audit B12): the facts decide `Tie.LookupSync.treeF35 = true` (`getTopic_precreate_before_start` accepts
+only the shape with the name test); a tree that reverts F35 fails `tree_f35` and this theorem with it. -/
+theorem no_injection_this_tree : C16_no_injection Nsq.Tie.LookupSync.treeF35 := by
+  rw [Nsq.Tie.LookupSync.tree_f35]; exact no_injection
+
+/-- non-vacuity: on this tree's pre-creation a hostile name is dropped, a valid one kept -/
+example : precreateG Nsq.Tie.LookupSync.treeF35 [⟨true, some ["x\nUNREGISTER other", "ok"]⟩] = ["ok"] := by
+  rw [Nsq.Tie.LookupSync.tree_f35]; decide
+
+/-- Without F35 (the tree before d2805fe) it is false: one lookupd answering `/channels` with the name `x⏎UNREGISTER other` makes nsqd create
 that channel and announce it to EVERY lookupd as `REGISTER t x⏎UNREGISTER other⏎` — two commands (replayed on the real
 code against the real nsqlookupd: harness case `bad1`, finding `precreate-unvalidated-channel-name`). -/
 theorem no_injection_false_without_F35 : ¬ C16_no_injection false := by
